@@ -11,7 +11,7 @@ t=$(cd $d && go test -vet=off -count=1 ./... 2>&1 | tail -1)
 echo "tests: $t"
 fired=""
 for p in $props; do
-  out=$(VERIF_REPO=$d VERIF_DIR=$v /verif/bin/sigcheck -prop $p 2>&1); rc=$?
+  out=$(VERIF_REPO=$d VERIF_DIR=$v ${SIGCHECK:-/verif/bin/sigcheck} -prop $p 2>&1); rc=$?
   if [ $rc -ne 0 ]; then fired="$fired $p"; echo "--- $p rc=$rc"; echo "$out" | grep "^REFUTED\|^UNDECIDED" -A1 | grep -v "^--" | cut -c1-${WIDTH:-260} | head -${LINES_MAX:-6}; fi
 done
 echo "FIRED:$fired"
